@@ -25,7 +25,7 @@ def run(ctx):
     total, failures, dist = cli_fuzz.run(stg, ctx.rng, n, tag="c20f")
     n_rev, f_rev = cli_fuzz.run_rev_probes(stg, ("stack",) if ctx.quick() else ("stack", "moved", "empty"),
                                            cli_fuzz.QUICK_REVS if ctx.quick() else None)
-    n_b, f_b = cli_fuzz.run_boundary_probes(stg)
+    n_b, f_b = cli_fuzz.run_boundary_probes(stg, seed=ctx.seed, quick=ctx.quick())
     total += n_rev + n_b
     failures += f_rev + f_b
     ctx.coverage["boundary_probes"] = n_b
